@@ -1,5 +1,7 @@
 import Ladim.Model.Basic
 import Ladim.Model.Time
 import Ladim.Model.State
+import Ladim.Model.Output
 import Ladim.Props.C13
 import Ladim.Props.C13Parser
+import Ladim.Props.C05
